@@ -46,6 +46,10 @@ Definition run (name : string) (vs : list vin) (ss : list inp) : val O :=
                         (L2 O (straight_scattered_beam O (v 2%nat) (v 1%nat)))
   else if String.eqb name "pos>two_theta" then
     two_theta O (straight_incident_beam O (v 0%nat) (v 1%nat)) (straight_scattered_beam O (v 2%nat) (v 1%nat))
+  (* what the public functions must return for data that carries the two beams instead of the positions,
+     and for a coordinate the data carries (position, source_position, sample_position): the coordinate itself *)
+  else if String.eqb name "beams>Ltotal" then total_beam_length O (L1 O (v 0%nat)) (L2 O (v 1%nat))
+  else if String.eqb name "coord" then v 0%nat
   else VErr O "unknown-kernel".
 
 Definition check (c : ccase) : string :=
